@@ -108,6 +108,33 @@ impl Session {
         AnyTlsError::Io(error)
     }
 
+    /// Await one transport operation of the write path, giving it up when the session is closed
+    /// meanwhile. A write parked in a transport whose peer has stopped reading holds the writer
+    /// lock: without this, close() (liveness monitor, owner, receive loop) could never shut the
+    /// transport down and the writing task would stay parked for good.
+    async fn until_closed<T>(
+        &self,
+        op: impl std::future::Future<Output = std::io::Result<T>>,
+    ) -> std::io::Result<T> {
+        let closed = self.close_notify.notified();
+        tokio::pin!(closed);
+        // Register before looking at the flag: close() sets the flag first and notifies afterwards
+        closed.as_mut().enable();
+        if self.is_closed() {
+            return Err(std::io::Error::new(
+                std::io::ErrorKind::BrokenPipe,
+                "session closed",
+            ));
+        }
+        tokio::select! {
+            r = op => r,
+            _ = &mut closed => Err(std::io::Error::new(
+                std::io::ErrorKind::BrokenPipe,
+                "session closed during write",
+            )),
+        }
+    }
+
     /// Create a new client session
     pub fn new_client<R, W>(
         reader: R,
@@ -976,11 +1003,11 @@ impl Session {
             #[cfg(feature = "verif-hooks")]
             crate::verif::sched_point("write_with_padding:before_lock_nopad").await;
             let mut writer = self.writer.lock().await;
-            if let Err(e) = writer.write_all(&buffer).await {
+            if let Err(e) = self.until_closed(writer.write_all(&buffer)).await {
                 drop(writer);
                 return Err(self.handle_io_error("write_without_padding", e).await);
             }
-            if let Err(e) = writer.flush().await {
+            if let Err(e) = self.until_closed(writer.flush()).await {
                 drop(writer);
                 return Err(self.handle_io_error("flush_without_padding", e).await);
             }
@@ -1010,11 +1037,11 @@ impl Session {
             // Note: We should probably disable send_padding, but that requires mutable access
             // For now, just write directly
             let mut writer = self.writer.lock().await;
-            if let Err(e) = writer.write_all(&buffer).await {
+            if let Err(e) = self.until_closed(writer.write_all(&buffer)).await {
                 drop(writer);
                 return Err(self.handle_io_error("write_no_padding_stop", e).await);
             }
-            if let Err(e) = writer.flush().await {
+            if let Err(e) = self.until_closed(writer.flush()).await {
                 drop(writer);
                 return Err(self.handle_io_error("flush_no_padding_stop", e).await);
             }
@@ -1027,11 +1054,11 @@ impl Session {
         // If no sizes defined, write directly
         if pkt_sizes.is_empty() {
             let mut writer = self.writer.lock().await;
-            if let Err(e) = writer.write_all(&buffer).await {
+            if let Err(e) = self.until_closed(writer.write_all(&buffer)).await {
                 drop(writer);
                 return Err(self.handle_io_error("write_no_padding_sizes", e).await);
             }
-            if let Err(e) = writer.flush().await {
+            if let Err(e) = self.until_closed(writer.flush()).await {
                 drop(writer);
                 return Err(self.handle_io_error("flush_no_padding_sizes", e).await);
             }
@@ -1077,7 +1104,7 @@ impl Session {
                         &buffer[..7]
                     );
                 }
-                if let Err(e) = writer.write_all(&buffer[..size]).await {
+                if let Err(e) = self.until_closed(writer.write_all(&buffer[..size])).await {
                     drop(writer);
                     return Err(self.handle_io_error("write_padding_split_payload", e).await);
                 }
@@ -1102,7 +1129,7 @@ impl Session {
                     buffer.put_slice(&padding_frame);
                 }
 
-                if let Err(e) = writer.write_all(&buffer).await {
+                if let Err(e) = self.until_closed(writer.write_all(&buffer)).await {
                     drop(writer);
                     return Err(self.handle_io_error("write_padding_payload_frame", e).await);
                 }
@@ -1117,7 +1144,7 @@ impl Session {
                 padding_frame.put_u16(size as u16);
                 padding_frame.put_slice(&vec![0u8; size]); // padding data (zeros)
 
-                if let Err(e) = writer.write_all(&padding_frame).await {
+                if let Err(e) = self.until_closed(writer.write_all(&padding_frame)).await {
                     drop(writer);
                     return Err(self.handle_io_error("write_padding_frame_only", e).await);
                 }
@@ -1130,14 +1157,14 @@ impl Session {
                 "[Session] write_with_padding: Writing {} remaining payload bytes",
                 buffer.len()
             );
-            if let Err(e) = writer.write_all(&buffer).await {
+            if let Err(e) = self.until_closed(writer.write_all(&buffer)).await {
                 drop(writer);
                 return Err(self.handle_io_error("write_remaining_payload", e).await);
             }
         }
 
         tracing::trace!("[Session] write_with_padding: Flushing writer");
-        if let Err(e) = writer.flush().await {
+        if let Err(e) = self.until_closed(writer.flush()).await {
             drop(writer);
             return Err(self.handle_io_error("flush_with_padding", e).await);
         }
